@@ -91,7 +91,13 @@ var lazyBlacklist = []string{"unicode", "runtime", "reflect", "syscall", "fmt", 
 	"compress/", "hash/", "encoding/binary", "encoding/base64", "mime", "os/exec", "os/signal", "os/user", "context", "internal/testlog", "vendor/", "math/big", "math/bits", "embed", "flag"}
 
 func NewProgram(l *load.Loaded, tier string) *xexec.Program {
-	p := &xexec.Program{Prog: l.Prog, Redirects: l.Redirects, InitPkgs: map[string]bool{}, LazyInit: map[string]bool{}, Tier: tier, ApiPath: load.ApiPath}
+	p := &xexec.Program{Prog: l.Prog, Redirects: l.Redirects, InitPkgs: map[string]bool{}, LazyInit: map[string]bool{}, Tier: tier, ApiPath: load.ApiPath, Summarize: map[string]bool{}}
+	for k := range l.Summarize {
+		p.Summarize[k] = true
+	}
+	for _, k := range defaultSummarize {
+		p.Summarize[k] = true
+	}
 	for _, sp := range l.Prog.AllPackages() {
 		path := sp.Pkg.Path()
 		if strings.HasPrefix(path, load.Module) {
@@ -111,6 +117,9 @@ func NewProgram(l *load.Loaded, tier string) *xexec.Program {
 	}
 	return p
 }
+
+// defaultSummarize lists library / repo functions that are pure and worth merging.
+var defaultSummarize = []string{}
 
 type scriptRec struct{ script, verdict string }
 
